@@ -34,8 +34,24 @@ def unit(a):
     return (a[0] / n, a[1] / n, a[2] / n)
 
 
+def sub(a, b):
+    return (a[0] - b[0], a[1] - b[1], a[2] - b[2])
+
+
+def add(a, b):
+    return (a[0] + b[0], a[1] + b[1], a[2] + b[2])
+
+
+def cross_stable(a, b):
+    """a x b for unit vectors without the cancellation of the naive formula when a ~ b:
+    (a+b) x (b-a) = 2 a x b, and b-a is (nearly) exact for nearby vectors."""
+    c = cross(add(a, b), sub(b, a))
+    return (c[0] / 2, c[1] / 2, c[2] / 2)
+
+
 def angle(u, v):
-    return math.atan2(norm(cross(u, v)), dot(u, v))
+    """Kahan's formula: accurate for tiny and for large angles alike."""
+    return 2.0 * math.atan2(norm(sub(u, v)), norm(add(u, v)))
 
 
 def dist(p, q):
@@ -69,9 +85,9 @@ def destination(p, brng, d):
 def pt_arc(p, s1, s2):
     """Nearest point of the minor arc s1->s2 to p: (distance m, point (lat, lon), t in [0,1])."""
     a, b, q = vec(s1), vec(s2), vec(p)
-    n = cross(a, b)
+    n = cross_stable(a, b)
     ln = norm(n)
-    total = math.atan2(ln, dot(a, b))
+    total = angle(a, b)
     if ln < 1e-15:  # zero-length (or antipodal, excluded by the generators)
         return R * angle(a, q), s1, 0.0
     n = (n[0] / ln, n[1] / ln, n[2] / ln)
@@ -81,7 +97,7 @@ def pt_arc(p, s1, s2):
     if lf < 1e-12:  # p is a pole of the great circle: every point of the arc is equally near
         return R * angle(a, q), s1, 0.0
     f = (f[0] / lf, f[1] / lf, f[2] / lf)
-    inside = dot(cross(a, f), n) >= 0 and dot(cross(f, b), n) >= 0
+    inside = dot(cross_stable(a, f), n) >= 0 and dot(cross_stable(f, b), n) >= 0
     if inside:
         d = R * math.atan2(abs(h), lf)
         t = angle(a, f) / total
@@ -98,7 +114,7 @@ def at(s1, s2, t):
     total = angle(a, b)
     if total == 0:
         return s1
-    n = unit(cross(a, b))
+    n = unit(cross_stable(a, b))
     e = cross(n, a)  # unit vector in the plane, perpendicular to a, towards b
     ang = t * total
     w = tuple(a[i] * math.cos(ang) + e[i] * math.sin(ang) for i in range(3))
@@ -107,7 +123,7 @@ def at(s1, s2, t):
 
 def arcs_intersect(s1, s2, t1, t2):
     a, b, c, d = vec(s1), vec(s2), vec(t1), vec(t2)
-    n1, n2 = cross(a, b), cross(c, d)
+    n1, n2 = cross_stable(a, b), cross_stable(c, d)
     if norm(n1) < 1e-15 or norm(n2) < 1e-15:
         return False
     x = cross(n1, n2)
@@ -117,8 +133,8 @@ def arcs_intersect(s1, s2, t1, t2):
     n1u, n2u = unit(n1), unit(n2)
     for s in (1, -1):
         y = (s * x[0], s * x[1], s * x[2])
-        if (dot(cross(a, y), n1u) >= 0 and dot(cross(y, b), n1u) >= 0 and
-                dot(cross(c, y), n2u) >= 0 and dot(cross(y, d), n2u) >= 0):
+        if (dot(cross_stable(a, y), n1u) >= 0 and dot(cross_stable(y, b), n1u) >= 0 and
+                dot(cross_stable(c, y), n2u) >= 0 and dot(cross_stable(y, d), n2u) >= 0):
             return True
     return False
 
